@@ -666,6 +666,9 @@ def normal_form(prog):
         for s in F._flat(u['body']):
             if s['s'] == 'do' and s['st'] != NONE:
                 feats.add('negstep' if s['st']['k'] == 'neg' else 'step')
+            if s['s'] == 'do' and _lit(s['lo']) is not None and _lit(s['hi']) is not None \
+                    and (s['st'] == NONE or _lit(s['st'])) and not do_values(_lit(s['lo']), _lit(s['hi']), None if s['st'] == NONE else _lit(s['st'])):
+                feats.add('zerotrip')
             if s['s'] == 'raw':
                 m = re.match(r'!\$loki\s+(\S+)(.*)', s['text'])
                 if m:
@@ -674,27 +677,100 @@ def normal_form(prog):
     return kinds + ('+' + ','.join(sorted(feats)) if feats else '')
 
 
-def report_by_family(ctx, cases, results, fails, transform, rounds=None, reps=2, cands_per=40, max_states=14):
-    """Group the failing programs by (family, failure signature), shrink up to `reps` representatives per
-    group by statement deletion (all candidates of one round are checked in ONE behaviour_check batch) and
+def signature(kind, msg):
+    """Failure class: kind + first diagnostic with names, numbers and paths abstracted."""
+    def norm(t):
+        t = re.sub(r"[‘'`][^’']*[’']", 'V', t)
+        t = re.sub(r'/[\w/.\-]+', '<path>', t)
+        t = re.sub(r'-?\d+', 'N', t)
+        return t.strip()[:100]
+    if kind == 'output':
+        return 'output:output-differs'
+    if kind == 'runtime-error':
+        m = re.search(r'Fortran runtime error: (.*)', msg)
+        if m:
+            return 'runtime-error:' + norm(m.group(1))
+        m = re.search(r'Program received signal (\w+)', msg)
+        return 'runtime-error:' + (m.group(1) if m else 'crash')
+    if kind == 'compile-error':
+        m = re.search(r'Error: (.*)', msg)
+        return 'compile-error:' + norm(re.sub(r'; did you mean.*', '', m.group(1)) if m else 'unknown')
+    if kind == 'transform-raised':
+        first = msg.splitlines()[0] if msg else ''
+        return 'transform-raised:' + norm(first)
+    return f'{kind}:'
+
+
+def shrink_candidates(prog, limit):
+    """Smaller programs, most aggressive first: keep ONE top-level statement of the kernel (with its pragma
+    line), drop the first / second half, then lib_fm's single-statement deletions and unwrappings."""
+    out = []
+    body = prog['units'][0]['body']
+    init, tail = body[:5], body[5:]
+    groups, i = [], 0
+    while i < len(tail):
+        j = i + 1
+        if tail[i]['s'] == 'raw' and j < len(tail):
+            j += 1
+        groups.append((i, j))
+        i = j
+
+    def with_tail(t):
+        p2 = copy.deepcopy(prog)
+        p2['units'][0]['body'] = copy.deepcopy(init) + copy.deepcopy(t)
+        prune_unreachable(p2)
+        return p2
+    if len(groups) > 1:
+        for a, b in groups[:10]:
+            out.append(with_tail(tail[a:b]))
+        h = groups[len(groups) // 2][0]
+        out += [with_tail(tail[:h]), with_tail(tail[h:])]
+    out += F.removal_candidates(prog, limit=limit)
+    return out[:limit]
+
+
+def nstmts(prog):
+    return sum(1 for u in prog['units'] for _ in F._flat(u['body']))
+
+
+def _lit(e):
+    if e.get('k') == 'int':
+        return e['v']
+    if e.get('k') == 'neg' and e['c'][0].get('k') == 'int':
+        return -e['c'][0]['v']
+    return None
+
+
+def report_by_family(ctx, cases, results, fails, transform, rounds=None, reps=None, cands_per=None, max_states=None):
+    """Group the failing programs by (family, failure signature), shrink representatives of every group (all
+    candidates of one round are checked in ONE behaviour_check batch, i.e. by TLC against the machine) and
     report one violation per distinct key  family:signature:normal-form-of-the-shrunk-program."""
-    rounds = rounds if rounds is not None else (3 if ctx.quick else 6)
+    quick = ctx.quick
+    rounds = rounds if rounds is not None else (2 if quick else 5)
+    reps = reps or (1 if quick else 2)
+    cands_per = cands_per or (14 if quick else 40)
+    max_states = max_states or (8 if quick else 24)
     groups = {}
     for idx, kind, msg in fails:
-        groups.setdefault((family_of(cases[idx][0]), F.failure_signature(kind, msg)), []).append((idx, kind, msg))
+        groups.setdefault((family_of(cases[idx][0]), signature(kind, msg)), []).append((idx, kind, msg))
     ctx.cover['failure_groups'] = {f'{fam}:{sig}': len(v) for (fam, sig), v in sorted(groups.items())}
     states = []
     for (fam, sig), members in sorted(groups.items()):
         members = sorted(members, key=lambda m: len(results[m[0]]['text']))
         for idx, kind, msg in members[:reps]:
             states.append({'fam': fam, 'sig': sig, 'idx': idx, 'kind': kind, 'msg': msg, 'n': len(members),
-                           'small': cases[idx][0], 'inputs': cases[idx][1], 'done': len(states) >= max_states})
+                           'small': cases[idx][0], 'inputs': cases[idx][1], 'done': False})
+    # one representative of every group first; the budget goes to the groups in order
+    states.sort(key=lambda st: (st['idx'] != min(m[0] for m in groups[(st['fam'], st['sig'])]), st['fam'], st['sig']))
+    for si, st in enumerate(states):
+        st['done'] = si >= max_states or bool(ctx.replay and False)
     for _ in range(rounds):
         batch, owner = [], []
         for si, st in enumerate(states):
-            if st['done']:
+            if st['done'] or nstmts(st['small']) <= 7:
+                st['done'] = True
                 continue
-            for c in F.removal_candidates(st['small'], limit=cands_per):
+            for c in shrink_candidates(st['small'], cands_per):
                 batch.append((c, st['inputs']))
                 owner.append(si)
         if not batch:
@@ -702,7 +778,7 @@ def report_by_family(ctx, cases, results, fails, transform, rounds=None, reps=2,
         _, fl, _ = F.behaviour_check(ctx, 'shrink', batch, transform)
         failed = {}
         for idx, kind, msg in fl:
-            failed.setdefault(idx, F.failure_signature(kind, msg))
+            failed.setdefault(idx, signature(kind, msg))
         for si, st in enumerate(states):
             if st['done']:
                 continue
